@@ -238,6 +238,13 @@ func (nak *NesterAccountKeeper) SetAccount(account EthAccount) error {
 func (nak *NesterAccountKeeper) RemoveAccount(account EthAccount) {
 	prefixKey := append(nak.prefix, account.Address.Bytes()...)
 	nak.state.Delete(prefixKey)
+	// the balance lives in the balance store: a removed account (self-destructed, its funds
+	// already credited to the beneficiary) must not keep its old balance there
+	if account.Coins != (Coin{}) {
+		if err := nak.balances.SetBalance(account.Address, account.Coins); err != nil {
+			nak.logger.Error("failed to update the balance of removed account", account.Address, err)
+		}
+	}
 }
 
 func (nak *NesterAccountKeeper) GetNonce(addr keys.Address) uint64 {
